@@ -692,6 +692,118 @@ class Body:
             return []
         return [self.def_term(bi, si, rv, 0) for (bi, si, rv, lhs) in self.defs().get(t[2], ()) if len(lhs) == 1 and not self.blocks[bi]["cl"]]
 
+    # ------------------------------------------------------------ structural identification of locals
+    def named_locals(self):
+        """(local, name, type, leaf term) of every user variable and parameter"""
+        out = []
+        for l in range(1, len(self.locals)):
+            leaf = self.local_leaf(l)
+            if leaf is not None and isinstance(leaf[1], str):
+                out.append((l, leaf[1], self.locals[l], leaf))
+        return out
+
+    def find_locals(self, ty=None, call=None, aggr=None, param=None, const=None, not_ty=None, pred=None, arg=None):
+        """names of the user variables / parameters identified structurally (never by spelling):
+        ty = regex on the declared type, call = regex of a callee in one of its definitions, aggr = regex of the ADT of an
+        aggregate that defines it, param = True/False restricts to parameters / plain locals, const = a literal value assigned"""
+        out = []
+        for l, name, lty, leaf in self.named_locals():
+            if param is not None and (leaf[0] == "param") != param:
+                continue
+            if arg is not None:
+                # argument of the function: a MIR parameter, or (async fn / closure) a local moved out of the captured state
+                ds0 = self.var_defs(leaf)
+                is_arg = leaf[0] == "param" or (len(ds0) == 1 and strip(ds0[0])[0] == "upvar")
+                if is_arg != arg:
+                    continue
+            if ty is not None and not re.search(ty, lty):
+                continue
+            if not_ty is not None and re.search(not_ty, lty):
+                continue
+            if call is not None or aggr is not None or const is not None or pred is not None:
+                ds = self.var_defs(leaf)
+                ok = False
+                for d in ds:
+                    if call is not None and has_call(d, call) is not None:
+                        ok = True
+                    if aggr is not None:
+                        u = strip(d)
+                        if u[0] == "aggr" and re.search(aggr, u[2] or ""):
+                            ok = True
+                    if const is not None:
+                        u = strip(d)
+                        if u[0] == "const" and u[1] == const:
+                            ok = True
+                    if pred is not None and pred(d):
+                        ok = True
+                if not ok:
+                    continue
+            if name not in out:
+                out.append(name)
+        return out
+
+    def the_local(self, what, **spec):
+        """the unique variable identified by `spec`; fails closed when none or several match"""
+        c = self.find_locals(**spec)
+        if len(c) != 1:
+            raise MissingAnchor("%s: expected exactly one variable for %s (%s), found %s" % (short(self.id), what, spec_str(spec), c))
+        return c[0]
+
+    def upvar_type(self, name):
+        """type of the captured variable `name`, looked up in the enclosing bodies (same source variable)"""
+        b = self
+        for _ in range(6):
+            par = self.prog.bodies.get(b.parent) if b.parent else None
+            if par is None:
+                return ""
+            tys = {lty for l, n, lty, leaf in par.named_locals() if n == name}
+            if len(tys) == 1:
+                return tys.pop()
+            if len(tys) > 1:
+                return ""
+            b = par
+        return ""
+
+    def cpath(self, t, depth=0):
+        """field path whose root is the *type* of the root variable, `‹Type›.a.b` — independent of how locals are spelled.
+        Aliases (`let n = &x.node`) are looked through; loop items and pattern bindings keep their own type as root."""
+        parts = []
+        while depth < 40:
+            depth += 1
+            k = t[0]
+            if k == "field" and t[2].isdigit() and t[1][0] == "downcast" and t[1][2] in WRAP_VARIANTS:
+                t = t[1][1]
+            elif k == "field":
+                parts.append(t[2])
+                t = t[1]
+            elif k in ("deref", "ref", "cast", "downcast", "await"):
+                t = t[1]
+            elif k == "call" and t[2] and TRANSPARENT.search(t[1]):
+                t = t[2][0]
+            elif k in ("var", "param") and len(t) > 2:
+                if k == "var":
+                    ds = self.var_defs(t)
+                    if len(ds) == 1:
+                        d = ds[0]
+                        u = d
+                        while u[0] in ("deref", "ref", "cast", "field") or (u[0] == "call" and u[2] and TRANSPARENT.search(u[1])):
+                            u = u[2][0] if u[0] == "call" else u[1]
+                        if u[0] in ("var", "param", "upvar") and u[:3] != t[:3] and not (u[0] == "var" and _is_loop_item(d)):
+                            t = d
+                            continue
+                parts.append("‹%s›" % short_type(self.locals[t[2]]))
+                break
+            elif k == "upvar":
+                parts.append("‹%s›" % (short_type(self.upvar_type(t[1])) or "^"))
+                break
+            elif k == "call":
+                parts.append("%s()" % short(t[1]))
+                break
+            else:
+                parts.append("<" + k + ">")
+                break
+        return ".".join(reversed(parts))
+
     def root_type(self, t):
         """type of the variable/parameter at the root of a place-like term ('' when unknown)"""
         while t[0] in ("ref", "deref", "field", "cast", "downcast", "index"):
@@ -876,6 +988,17 @@ TRANSPARENT = re.compile(
     r"::borrow::Borrow<.*>::borrow|::to_owned$|::to_vec$|::unwrap$|::expect$|::into$|::From<.*>::from$|::Try>::branch$|"
     r"::as_str$|::as_slice$|::as_deref$|::as_bytes$|::to_string$|::cloned$|::copied$|::IntoIterator>::into_iter$|::iter$|::unwrap_or_default$)"
 )
+
+
+def short_type(ty):
+    """`&mut database::node::NodeToInsert` -> `NodeToInsert`; generic arguments are kept, module paths are not"""
+    ty = re.sub(r"&('\w+ )?(mut )?", "", ty or "")
+    ty = re.sub(r"\b(?:[a-z_][a-z0-9_]*::)+", "", ty)
+    return ty.strip()
+
+
+def spec_str(spec):
+    return ", ".join("%s=%s" % (k, v if isinstance(v, (str, int, bool)) else "<fn>") for k, v in spec.items())
 
 
 def strip(t):
